@@ -943,7 +943,24 @@ func (g *docGen) body(host string) string {
 	}
 	if g.r.P(1, 3) {
 		g.f("byline")
-		g.wf(`<div class="byline"><span class="byline-name">By %s</span> <span class="dateline">Jan %d, 2014</span></div>`+"\n", g.words(2), g.r.Range(1, 28))
+		name, day := g.words(2), g.r.Range(1, 28)
+		shape := 0
+		if g.r2 != nil {
+			shape = g.r2.Intn(5)
+		}
+		switch shape {
+		case 1:
+			// the author's name inside the dateline, as many publishers nest them
+			g.f("byline-in-dateline")
+			g.wf(`<p class="dateline"><span class="byline-name">%s</span> | March %d 2014</p>`+"\n", name, day)
+		case 2:
+			g.f("byline-in-dateline")
+			g.wf(`<div class="dateline">Jan %d, 2014 <a class="byline-name" rel="author" href="/author/1">%s</a></div>`+"\n", day, name)
+		case 3:
+			g.wf(`<span class="byline-name">%s</span><span class="dateline"></span><span class="dateline">Jan %d, 2014</span>`+"\n", name, day)
+		default:
+			g.wf(`<div class="byline"><span class="byline-name">By %s</span> <span class="dateline">Jan %d, 2014</span></div>`+"\n", name, day)
+		}
 	}
 	blocks := g.r.Range(1, 14)
 	if g.r.P(1, 10) {
@@ -1152,6 +1169,54 @@ func Document(seed uint64) GenDoc {
 					}
 					page = page[:i] + tag + mix() + keep + page[i+j:]
 				}
+			}
+		}
+	}
+	if g.r2.P(1, 12) {
+		// a page saved from a browser: the "saved from url" comment (Mark of the Web) right after the doctype
+		g.f("saved-from-url")
+		su := "http://" + host + Pick(g.r2, []string{"/saved/article.html", "/story/page/2", "/a/b/c?x=1"})
+		if g.r2.P(1, 4) {
+			su = Pick(g.r2, []string{"about:internet", "https://example.org/other/site/page-2.html", "file:///C:/x.html"})
+		}
+		mark := fmt.Sprintf("<!-- saved from url=(%04d)%s -->\n", len(su), su)
+		if i := strings.Index(page, "<html"); i >= 0 {
+			page = page[:i] + mark + page[i:]
+		} else {
+			page = mark + page
+		}
+	}
+	if g.r2.P(1, 5) {
+		// metadata published as JSON-LD, as most sites do today
+		g.f("json-ld")
+		typ := Pick(g.r2, []string{"Article", "NewsArticle", "BlogPosting", "WebPage", "Person", "Organization", "ImageObject", "BreadcrumbList"})
+		ld := fmt.Sprintf(`{"@context":"https://schema.org","@type":"%s","headline":"%s","name":"%s","datePublished":"2014-03-0%d","author":{"@type":"Person","name":"%s"},"publisher":{"@type":"Organization","name":"%s"},"image":["http://%s/ld.jpg"],"mainEntityOfPage":"http://%s/ld"}`,
+			typ, g.word2(), g.word2(), g.r2.Range(1, 9), g.word2(), g.word2(), host, host)
+		switch g.r2.Intn(4) {
+		case 0:
+			ld = "[" + ld + `,{"@type":"Thing"}]`
+		case 1:
+			ld = `{"@context":"https://schema.org","@graph":[` + ld + `]}`
+		case 2:
+			ld = ld[:len(ld)/2] // broken JSON
+		}
+		block := `<script type="application/ld+json">` + ld + `</script>`
+		if i := strings.Index(page, "</head>"); i >= 0 && g.r2.Bool() {
+			page = page[:i] + block + page[i:]
+		} else if i := strings.LastIndex(page, "</body>"); i >= 0 {
+			page = page[:i] + block + page[i:]
+		}
+	}
+	if g.r2.P(1, 8) {
+		// keyword attribute values in another case: aria-hidden="TRUE", role="Presentation", rel="NEXT" ...
+		g.f("keyword-value-case")
+		for _, kw := range []string{"true", "false", "hidden", "none", "presentation", "next", "prev", "article", "lazy", "row", "col", "author", "stylesheet"} {
+			if g.r2.P(1, 3) {
+				to := strings.ToUpper(kw)
+				if g.r2.Bool() {
+					to = strings.ToUpper(kw[:1]) + kw[1:]
+				}
+				page = strings.ReplaceAll(page, `="`+kw+`"`, `="`+to+`"`)
 			}
 		}
 	}
